@@ -39,6 +39,7 @@ STRATS = [
     ("uniform", {}), ("sticky", {"p": 0.5}), ("sticky", {"p": 0.8}), ("sticky", {"p": 0.95}),
     ("pct", {"d": 1}), ("pct", {"d": 2}), ("pct", {"d": 3}),
     ("pb", {"d": 1}), ("pb", {"d": 2}), ("pb", {"d": 3}),
+    ("rd", {"q": 0.1}), ("rd", {"q": 0.25}), ("rd", {"q": 0.5}),
 ]
 
 
@@ -54,11 +55,17 @@ def draw_sim_cfg(rng, est=600, stall_ok=False, line_ok=True):
         # calibrated placement: measure the length of this very workload under a non-pre-emptive
         # schedule first, then draw the pre-emption / priority-change points uniformly over it
         cfg["calibrate"] = rng.random() < 0.3
+    elif s == "rd":
+        cfg["line_q"] = 0.0
+        cfg["max_hold"] = (50, 300, 2000)[splitmix64(cfg["seed"] ^ 0x5bd1e995) % 3]
     else:
         cfg["line_q"] = rng.choice([0.0, 0.0, 0.03, 0.15, 0.5]) if line_ok else 0.0
     cfg["line"] = cfg["line_q"] > 0
     if stall_ok and rng.random() < 0.25:
         cfg["stall_p"] = rng.choice([0.002, 0.01])
+    # late timer wake-ups (derived from the run's seed without consuming the PRNG): timers due
+    # within the window of the earliest one fire together, at the latest of their deadlines
+    cfg["coalesce_ns"] = (0, 0, 0, 5000, 100000, 500000)[splitmix64(cfg["seed"]) % 6]
     return cfg
 
 
@@ -79,6 +86,7 @@ def execute(mod, spec, trace=None, stalls=None, strict=True):
         chooser = core.RandomChooser(cfg["seed"], cfg)
     sim = core.Sim(chooser, tick_ns=cfg.get("tick_ns", 1000), horizon_s=cfg.get("horizon_s", 3600.0),
                    line_mode=bool(cfg.get("line")), step_cap=cfg.get("step_cap", 150000))
+    sim.coalesce_ns = cfg.get("coalesce_ns", 0)
     env = Env(sim, spec)
     r = Result()
     r.sim = sim
@@ -153,6 +161,9 @@ def worker_main(prop, tier, vseed, start, count, stride, wall_s):
         if spec["sim"].get("stall_p"):
             st["probes"]["fault:thread-stall(runs)"] = st["probes"].get("fault:thread-stall(runs)", 0) + 1
             st["probes"]["fault:thread-stall(fired)"] = st["probes"].get("fault:thread-stall(fired)", 0) + len(sim.stalls)
+        if spec["sim"].get("coalesce_ns"):
+            st["probes"]["fault:late-timer-wake(runs)"] = st["probes"].get("fault:late-timer-wake(runs)", 0) + 1
+            st["probes"]["fault:late-timer-wake(timers fired together)"] = st["probes"].get("fault:late-timer-wake(timers fired together)", 0) + sim.coalesced
         if r.harness_error:
             st["harness_errors"] += 1
             out.write(json.dumps({"t": "harness", "idx": idx, "err": r.harness_error[:2000],
